@@ -419,3 +419,42 @@ Proof.
   intros Hp Ha H. eapply accepted_content_was_signed; eauto.
   eapply assembled_derivable; [apply derivable_self|exact Ha].
 Qed.
+
+(* ------------------------------------------------------------------ mutations compose *)
+Section Compose.
+  Variable protected : list N.
+
+  Lemma assembled_kids d0 t : assembled protected d0 t -> Forall (assembled protected d0) (t_kids t).
+  Proof.
+    intros H. destruct H as [p t Hp|n i pl kids Hk|refs key sv i pl kids Hn Hk|p refs key sv i pl kids i' pl' kids' Hp Hk]; cbn [t_kids]; auto.
+    apply Forall_forall. intros c Hc. apply In_nth_error in Hc as [j Hj].
+    apply (A_part _ _ (p ++ [j])). rewrite subtree_at_app, Hp. cbn. now rewrite Hj.
+  Qed.
+
+  Lemma assembled_subtree d0 : forall p t Y, assembled protected d0 t -> subtree_at p t = Some Y -> assembled protected d0 Y.
+  Proof.
+    induction p as [|k p IH]; intros t Y Ht H; cbn in H.
+    - now injection H as <-.
+    - destruct (nth_error (t_kids t) k) as [c|] eqn:Hk; [|discriminate].
+      apply (IH c); [|exact H]. apply assembled_kids in Ht. rewrite Forall_forall in Ht. apply Ht. eapply nth_error_In; eauto.
+  Qed.
+
+  (* sequences of mutations stay inside the closure *)
+  Lemma assembled_trans d0 d : assembled protected d0 d -> forall t, assembled protected d t -> assembled protected d0 t.
+  Proof.
+    intros Hd. fix IH 2. intros t Ht.
+    destruct Ht as [p t Hp|n i pl kids Hk|refs key sv i pl kids Hn Hk|p refs key sv i pl kids i' pl' kids' Hp Hk].
+    - eapply assembled_subtree; eauto.
+    - apply A_el. induction Hk as [|c r Hc _ IHr]; constructor; auto.
+    - apply A_forged_sig; [exact Hn|]. induction Hk as [|c r Hc _ IHr]; constructor; auto.
+    - assert (Forall (assembled protected d0) kids') as K by (induction Hk as [|c r Hc _ IHr]; constructor; auto).
+      pose proof (assembled_subtree _ _ _ _ Hd Hp) as Hs.
+      inversion Hs as [q t' Hq|?|refs0 key0 sv0 i0 pl0 kids0 Hn0 Hk0|q refs0 key0 sv0 i0 pl0 kids0 i0' pl0' kids0' Hq Hk0]; subst.
+      + eapply A_redressed_sig; eauto.
+      + apply A_forged_sig; assumption.
+      + eapply A_redressed_sig; eauto.
+  Qed.
+End Compose.
+
+Lemma assembled_refl protected d0 : assembled protected d0 d0.
+Proof. apply (A_part _ _ []). reflexivity. Qed.
